@@ -56,6 +56,13 @@ def mk_scn(rng: random.Random, unauthorised: str = "") -> dict:
             c["shift"] = rng.randint(1, 2)
             c["init"] = f"init:A.{ents_a[0]}.o"
         conns.append(c)
+        if rng.random() < 0.35:
+            # the agent also feeds the controlled simulator through an ordinary time-shifted connection
+            # (the agent is successor AND predecessor of A)
+            sims[-1]["outs"]["bo"] = "persistent"
+            sims[0]["ins"][f"fb{k}"] = "nontrigger"
+            conns.append({"src": sid, "se": "e0", "sa": "bo", "dst": "A", "de": ents_a[0], "da": f"fb{k}",
+                          "shift": rng.choice([1, 2, 2, 3]), "init": f"init:{sid}.e0.bo"})
     if rng.random() < 0.5:
         sims.append({"sid": "X", "type": "time-based", "path": [], "entities": ["e0"], "ins": {"i": "nontrigger"},
                      "outs": {"o": "persistent"}, "beh": {"seed": 5, "sizes": [rng.choice([1, 2])]}})
